@@ -437,7 +437,7 @@ func c03d(c *Ctx) {
 		return
 	}
 	var header, caseLine *writeSite
-	ws := writeSites(fn)
+	ws := c.sitesOf(fn)
 	for i := range ws {
 		switch ws[i].format {
 		case "\tswitch %s\n":
@@ -450,22 +450,25 @@ func c03d(c *Ctx) {
 		c.Bad(name+"/lines", c.W.FuncPos(fn), "cannot find the 'switch' header write and the 'case' line write")
 		return
 	}
-	c.Check(len(header.args) == 1 && c.term(fn, header.args[0]) == "$0.operand.Literal", name+"/header-operand", c.W.Pos(header.call.Pos()), "'switch <operand>'", "switch header prints "+c.term(fn, header.args[0]))
+	c.Check(len(header.argT) == 1 && header.argT[0] == "$0.operand.Literal", name+"/header-operand", c.W.Pos(header.call.Pos()), "'switch <operand>'", "switch header prints "+header.argT[0])
 	domAll := true
 	for _, w := range ws {
+		if w.depth > 0 && !strings.Contains(w.format, "%s_%d") && !strings.Contains(w.format, "case") {
+			continue // lines written by shared helpers that are neither case lines nor jumps (line markers)
+		}
 		if w.call != header.call && !instrDominates(header.call, w.call) {
 			domAll = false
 		}
 	}
 	c.Check(domAll && !isLoopMember(header.call.Block()), name+"/header-first-once", c.W.Pos(header.call.Pos()), "header written once, before everything else", "the switch header is not written exactly once before the case lines")
 	// case line: element of range over $0.cases
-	if len(caseLine.args) == 3 {
-		v, s, d := c.term(fn, caseLine.args[0]), c.term(fn, caseLine.args[1]), c.term(fn, caseLine.args[2])
+	if len(caseLine.argT) == 3 {
+		v, s, d := caseLine.argT[0], caseLine.argT[1], caseLine.argT[2]
 		elem := strings.TrimSuffix(d, ".destChunkID")
 		ok := strings.HasPrefix(elem, "$0.cases[") && v == elem+".comparisonValue.Literal" && s == "$2" && d == elem+".destChunkID"
 		c.Check(ok, name+"/case-line-operands", c.W.Pos(caseLine.call.Pos()), "'case <value of entry k>, <script>_<destination of entry k>'", fmt.Sprintf("case line prints (%s, %s, %s); value and destination must come from the same entry of s.cases and the label prefix must be the script name", pretty(v), s, pretty(d)))
 		// full range in order: index phi from -1 step +1, no early exit from the loop body
-		if ph, isPhi := rootIndexPhi(caseLine.args[2]); isPhi {
+		if ph, isPhi := rootIndexPhi(caseLine.argV(2)); isPhi {
 			_ = ph
 			c.OK(name+"/case-loop", c.W.Pos(caseLine.call.Pos()), "case lines come from a range over s.cases")
 		} else {
